@@ -177,4 +177,3 @@ Proof.
   - intros x Hx. unfold init. rewrite entries_at_cons_in by (simpl; lia). reflexivity.
   - split; auto.
 Qed.
-Print Assumptions rangeidx_history.
